@@ -109,6 +109,11 @@ func persistPoints(fn *ssa.Function) []ssa.Instruction {
 	return out
 }
 
+// pathIs: every origin of the path value (followed through helper parameters) is the result of fnName.
+func pathIs(P *core.Program, v ssa.Value, fnName string) bool {
+	return P.AllOrigins(v, nil, func(o ssa.Value) bool { return pathFrom(o, fnName) })
+}
+
 func pathFrom(v ssa.Value, fnName string) bool {
 	call, ok := core.Resolve(v).(*ssa.Call)
 	return ok && call.Call.StaticCallee() != nil && core.FuncName(call.Call.StaticCallee()) == fnName
@@ -188,8 +193,10 @@ func R22() Rule {
 			whyc := "Copy does not go through the store's own Add (generation / metageneration laws are bypassed)"
 			if okc {
 				cleared := false
-				for _, st := range storesToObjField(cp, "TimeCreated") {
-					if s2, isS := core.ConstString(st.Val); isS && s2 == "" && core.InstrDominates(st, addCall) {
+				cpScope := storeScope(P, cp)
+				cpSet := setOf(cpScope)
+				for _, st := range storesToObjFieldIn(cpScope, "TimeCreated") {
+					if s2, isS := core.ConstString(st.Val); isS && s2 == "" && P.InterDominates(cp, st, addCall, cpSet) {
 						cleared = true
 					}
 				}
@@ -352,7 +359,7 @@ func R22() Rule {
 				for _, ci := range core.AllCalls(f) {
 					if ci.Static != nil && ci.Static.Pkg != nil && fsMutators[ci.Static.Pkg.Pkg.Path()+"."+ci.Static.Name()] {
 						n++
-						if !(ci.IsFunc("os", "WriteFile") && pathFrom(ci.Common.Args[0], "metaFilename")) {
+						if !(ci.IsFunc("os", "WriteFile") && pathIs(P, ci.Common.Args[0], "metaFilename")) {
 							okOnly = false
 						}
 					}
@@ -366,7 +373,7 @@ func R22() Rule {
 			for _, f := range addScope {
 				for _, ci := range core.AllCalls(f) {
 					switch {
-					case ci.IsFunc("os", "WriteFile") && pathFrom(ci.Common.Args[0], "metaFilename"):
+					case ci.IsFunc("os", "WriteFile") && pathIs(P, ci.Common.Args[0], "metaFilename"):
 						meta = ci.Instr
 					case ci.IsFunc("os", "WriteFile"):
 						if P.AllOrigins(ci.Common.Args[0], addSet, func(v ssa.Value) bool { return pathFrom(v, "(*filestore).filename") }) {
@@ -402,7 +409,7 @@ func R22() Rule {
 			for _, f := range storeScope(P, del) {
 				for _, ci := range core.AllCalls(f) {
 					if ci.IsFunc("os", "Remove") {
-						if pathFrom(ci.Common.Args[0], "metaFilename") {
+						if pathIs(P, ci.Common.Args[0], "metaFilename") {
 							rmMeta = true
 						} else {
 							rmContent = true
